@@ -158,7 +158,7 @@ bool Units::UnitsImpl::isBaseUnitWithHistory(History &history, const UnitsConstP
     return (mUnits->unitCount() == 0) && standardUnitCheck;
 }
 
-bool Units::UnitsImpl::performTestWithHistory(History &history, const UnitsConstPtr &units, TestType type) const
+bool Units::UnitsImpl::performTestWithHistory(History &history, std::vector<UnitsConstPtr> &path, const UnitsConstPtr &units, TestType type) const
 {
     ModelPtr model;
     if (mUnits->isImport()) {
@@ -179,8 +179,15 @@ bool Units::UnitsImpl::performTestWithHistory(History &history, const UnitsConst
 
         history.push_back(h);
 
-        return importedUnits->pFunc()->performTestWithHistory(history, importedUnits, type);
+        return importedUnits->pFunc()->performTestWithHistory(history, path, importedUnits, type);
     }
+
+    // Units that are defined in terms of themselves (a -> b -> a) are neither
+    // defined nor resolvable.
+    if (std::find(path.begin(), path.end(), units) != path.end()) {
+        return false;
+    }
+    path.push_back(units);
 
     model = std::dynamic_pointer_cast<libcellml::Model>(mUnits->parent());
     for (size_t unitIndex = 0; unitIndex < mUnits->unitCount(); ++unitIndex) {
@@ -192,7 +199,7 @@ bool Units::UnitsImpl::performTestWithHistory(History &history, const UnitsConst
         if (model != nullptr) {
             auto childUnits = model->units(reference);
             if (childUnits != nullptr) {
-                if (!childUnits->pFunc()->performTestWithHistory(history, childUnits, type)) {
+                if (!childUnits->pFunc()->performTestWithHistory(history, path, childUnits, type)) {
                     return false;
                 }
             } else if (type == TestType::DEFINED) {
@@ -202,6 +209,8 @@ bool Units::UnitsImpl::performTestWithHistory(History &history, const UnitsConst
             return false;
         }
     }
+
+    path.pop_back();
 
     return true;
 }
@@ -753,13 +762,17 @@ UnitsPtr Units::clone() const
 bool Units::isDefined() const
 {
     History history;
-    return pFunc()->performTestWithHistory(history, shared_from_this(), TestType::DEFINED);
+    std::vector<UnitsConstPtr> path;
+
+    return pFunc()->performTestWithHistory(history, path, shared_from_this(), TestType::DEFINED);
 }
 
 bool Units::doIsResolved() const
 {
     History history;
-    return pFunc()->performTestWithHistory(history, shared_from_this(), TestType::RESOLVED);
+    std::vector<UnitsConstPtr> path;
+
+    return pFunc()->performTestWithHistory(history, path, shared_from_this(), TestType::RESOLVED);
 }
 
 } // namespace libcellml
